@@ -110,7 +110,15 @@ def reverseLoop : Nat → List α → Int → Option (List α)
 /-- `xslices.Reverse`: the caller's backing array afterwards. -/
 def reverse (s : List α) : Option (List α) := reverseLoop s.length s revI0
 
-/-! ## Partition -/
+/-! ## Partition
+
+The guards and initial values are generated expressions. The *step statements* of the loops are mirrored
+by hand and guarded by their generated counts: `i++` occurs three times (first inner loop, after the
+swap, final adjustment: `partIncI`), `j--` twice (second inner loop, after the swap: `partDecJ`), the swap
+once (`partSwaps`), `break` three times (one per loop: `partBreaks`). A step whose statement is not there
+(any other count) is not the function modelled here: the model answers `none`, so that
+`partition_perm_and_split` stops holding. *Where* each statement stands is the business of the pinned
+statement list (`pin_xslices_Partition`, `shapePartition`). -/
 
 /-- first inner loop: `for i < j { if !f(s[i]) { i++ } else { break } }` -/
 def advI (f : α → Bool) (s : List α) : Nat → Int → Int → Option Int
@@ -119,7 +127,9 @@ def advI (f : α → Bool) (s : List α) : Nat → Int → Int → Option Int
     if partLoopI i j then
       match getI s i with
       | none => none
-      | some x => if partAdvI (f x) then advI f s fuel (i + 1) j else some i
+      | some x =>
+        if partAdvI (f x) then (if partIncI = 3 then advI f s fuel (i + 1) j else none)   -- `i++`
+        else (if partBreaks = 3 then some i else none)                                     -- `break`
     else some i
 
 /-- second inner loop: `for j > i { if f(s[j]) { j-- } else { break } }` -/
@@ -129,7 +139,9 @@ def advJ (f : α → Bool) (s : List α) : Nat → Int → Int → Option Int
     if partLoopJ i j then
       match getI s j with
       | none => none
-      | some x => if partAdvJ (f x) then advJ f s fuel i (j - 1) else some j
+      | some x =>
+        if partAdvJ (f x) then (if partDecJ = 2 then advJ f s fuel i (j - 1) else none)   -- `j--`
+        else (if partBreaks = 3 then some j else none)                                     -- `break`
     else some j
 
 def partOuter (f : α → Bool) : Nat → List α → Int → Int → Option (List α × Int)
@@ -141,10 +153,11 @@ def partOuter (f : α → Bool) : Nat → List α → Int → Int → Option (Li
       match advJ f s s.length i j with
       | none => none
       | some j =>
-        if partDone i j then some (s, i) else
-        match swapI s i j with
+        if partDone i j then (if partBreaks = 3 then some (s, i) else none) else          -- `break`
+        match (if partSwaps = 1 then swapI s i j else some s) with                          -- the swap
         | none => none
-        | some s' => partOuter f fuel s' (i + 1) (j - 1)
+        | some s' =>
+          if partIncI = 3 ∧ partDecJ = 2 then partOuter f fuel s' (i + 1) (j - 1) else none   -- `i++; j--`
 
 /-- `xslices.Partition`: `(caller's backing array afterwards, returned index)`. -/
 def partition (f : α → Bool) (s : List α) : Option (List α × Int) :=
@@ -152,6 +165,7 @@ def partition (f : α → Bool) (s : List α) : Option (List α × Int) :=
   match partOuter f (s.length + 1) s (partI0 len) (partJ0 len) with
   | none => none
   | some (s', i) =>
+    if partIncI ≠ 3 then none else                                                          -- final `i++`
     match getI s' i with
     | some x => some (s', if partFinal i len (f x) then i + 1 else i)
     | none =>
